@@ -193,8 +193,8 @@ Lemma raw_got_event_post : forall s j, J true s -> (j = KICK_RAW \/ (inr16 j /\ 
   Post true s (raw_got_event sc s j).
 Proof.
   intros s j Jh JR. unfold raw_got_event.
-  pose proof (ksame_read (kern s) (rw_rfd s j) (if efd_raw s =? 0 then 1024 else 8)) as KS.
-  destruct (k_read (kern s) (rw_rfd s j) (if efd_raw s =? 0 then 1024 else 8)) as [k1 [n|e]]; cbn [fst] in KS.
+  pose proof (ksame_read (kern s) (rw_rfd s j) (if raw_is_pipe s j then 1024 else 8)) as KS.
+  destruct (k_read (kern s) (rw_rfd s j) (if raw_is_pipe s j then 1024 else 8)) as [k1 [n|e]]; cbn [fst] in KS.
   - destruct (n =? 0).
     + cbn [Post halt]. rewrite mst_emit. apply good_quiet; [left; reflexivity|apply (j_good _ _ Jh)].
     + pose proof (J_set_kern_plain true s k1 Jh KS) as J1.
